@@ -272,9 +272,23 @@ def calibration_map(spec, tab=None):
     return {tab[k]: spec["calib_values"][k] for k in spec["calib"]}
 
 
+def _noise_value(spec, v):
+    """noise magnitudes may be handed over as exact rationals (sympy.Rational / fractions.Fraction) instead of floats"""
+    kind = spec.get("noise_type")
+    if kind == "rational":
+        import sympy
+
+        return sympy.Rational(v).limit_denominator(1000)
+    if kind == "fraction":
+        import fractions
+
+        return fractions.Fraction(v).limit_denominator(1000)
+    return v
+
+
 def process_noise(spec, tab=None):
     tab = tab or symtab(spec)
-    return {tab[c]: spec["process_noise"][c] for c in spec["control"]}
+    return {tab[c]: _noise_value(spec, spec["process_noise"][c]) for c in spec["control"]}
 
 
 def _rkey(spec, key, r):
@@ -291,7 +305,7 @@ def sensor_models(spec, tab=None):
 
 
 def sensor_noises(spec):
-    return {key: {_rkey(spec, key, r): v for r, v in m.items()} for key, m in spec["sensor_noises"].items()}
+    return {key: {_rkey(spec, key, r): _noise_value(spec, v) for r, v in m.items()} for key, m in spec["sensor_noises"].items()}
 
 
 def py_config(spec, **over):
@@ -352,3 +366,27 @@ def cse_stats(spec, which="model"):
     temps = {r[0] for r in rep}
     nested = any(r[1].free_symbols & temps for r in rep)
     return len(rep), nested
+
+
+def shadow_of(spec, kind):
+    """A second definition that shares names with `spec`:
+    'roles'   - the same update expressions, but control and calibration symbols swap roles (same symbol set, other
+                positional order of every generated function);
+    'sensors' - the same symbols and the same sensor / reading names, other sensor and update expressions."""
+    import copy
+
+    m = copy.deepcopy(spec)
+    if kind == "roles":
+        m["control"], m["calib"] = list(spec["calib"]), list(spec["control"])
+        m["calib_values"] = {k: 0.5 + 0.25 * i for i, k in enumerate(m["calib"])}
+        m["process_noise"] = {c: 0.3 + 0.1 * i for i, c in enumerate(m["control"])}
+        # sensors may not depend on controls: drop them in the shadow
+        m["sensors"], m["sensor_noises"], m["symbol_keyed"] = {}, {}, []
+        m["positive"] = list(spec["positive"])
+    else:
+        first = ["sym", spec["state"][0]]
+        m["sensors"] = {k: {r: ["add", ["mul", ["const", 1], t], first] for r, t in rs.items()} for k, rs in spec["sensors"].items()}
+        m["trees"] = {s: ["add", t, ["mul", ["const", 5], first]] for s, t in spec["trees"].items()}
+    m["string_form"] = []
+    m["proactive_simplify"] = False
+    return m
